@@ -158,6 +158,10 @@ Definition model_case (f : pyfunc) (steps : list step) (fwd : bool) (partial : n
          (match snd (run_steps f steps) with
           | None => map (call_top f (rev (fst (run_steps f steps))) fwd partial) calls
           | Some _ => []
+          end)
+         (match snd (run_steps f steps) with
+          | None => map (lower_saws (rev (fst (run_steps f steps))) fwd partial) calls
+          | Some _ => []
           end).
 
 Definition steps_nonzero (steps : list step) : Prop :=
@@ -366,6 +370,47 @@ Proof.
   - rewrite andb_false_r. reflexivity.
 Qed.
 
+(* ... and each of the entered levels hands its wrapper the call the outermost wrapper got *)
+Lemma chain_saws_plain b2 : good b2 -> forall n gs c env c0,
+  Forall (passes_on (fb_sig b2)) (firstn n gs) -> n <= length gs ->
+  NoDup (keys (c_kw c)) -> bind (sg_params (fb_sig b2)) c = Ok env ->
+  eval_inv (inv_of_params (sg_params (fb_sig b2))) env = Ok c0 ->
+  chain_saws gs n c = repeat c0 n.
+Proof.
+  intros G2. induction n as [|n IH]; intros gs c env c0 FA LE NDk B EV0; [reflexivity|].
+  destruct gs as [|g below]; [simpl in LE; inversion LE|].
+  cbn [firstn] in FA. inversion FA as [|? ? PG PB]; subst.
+  pose proof (level_call b2 g c G2 PG NDk) as L. rewrite B in L.
+  destruct L as [L1 [c' [EV [B' ND']]]]. cbn [chain_saws repeat]. rewrite L1, EV.
+  assert (c' = c0) by (destruct PG as [_ IVg]; rewrite IVg in EV; congruence). subst c'.
+  f_equal. apply (IH below c0 env c0 PB); [simpl in LE; apply le_S_n; exact LE | exact ND' | exact B' | exact EV0].
+Qed.
+
+Lemma lower_ok_model f gtop below b2 fwd partial k :
+  good b2 -> passes_on (fb_sig b2) gtop ->
+  (fwd = false -> Forall (passes_on (fb_sig b2)) (firstn partial below) /\ partial <= length below) ->
+  k_forward k = fwd -> k_partial k = partial ->
+  forall calls, Forall (fun c => NoDup (keys (c_kw c))) calls ->
+  lower_ok k (map (call_top f (gtop :: below) fwd partial) calls)
+             (map (lower_saws (gtop :: below) fwd partial) calls) = true.
+Proof.
+  intros G2 PT PA KF KP. induction calls as [|c r IH]; intro ND; [reflexivity|].
+  inversion ND as [|c0 r0 NDc NDr]; subst c0 r0. cbn [map].
+  destruct (call_top f (gtop :: below) fwd partial c) as [saw out] eqn:CT. cbn [lower_ok].
+  rewrite (IH NDr), andb_true_r, KF, KP.
+  pose proof (level_call b2 gtop c G2 PT NDc) as L. unfold call_top in CT. unfold lower_saws.
+  assert (IVT : b_inv gtop = inv_of_params (sg_params (fb_sig b2))) by (destruct PT; assumption).
+  assert (CG : call_func (b_func gtop) c = bind (sg_params (fb_sig b2)) c).
+  { destruct PT as [SG _]. unfold call_func. rewrite SG. reflexivity. }
+  rewrite CG in *. destruct (bind (sg_params (fb_sig b2)) c) as [env|e] eqn:B.
+  - destruct L as [_ [c' [EV [B' ND']]]]. rewrite EV in *. inversion CT; subst saw out.
+    destruct fwd; [reflexivity|].
+    destruct (PA eq_refl) as [PF PLE]. rewrite IVT in EV.
+    rewrite (chain_saws_plain b2 G2 partial below c' env c' PF PLE ND' B' EV).
+    apply (list_eqb_refl _ call_eqb_refl).
+  - inversion CT; subst saw out. reflexivity.
+Qed.
+
 Lemma model_again_eq f : wf_func f -> model_again f = Some (func_sig f).
 Proof.
   intro WF. unfold model_again. destruct (wraps_same_signature f WF) as [g [E [S _]]].
@@ -504,7 +549,7 @@ Theorem model_holds f steps fwd partial calls :
   holds (model_case f steps fwd partial calls) = true.
 Proof.
   intros WF NE NZ NDc PL PA. unfold holds, model_case.
-  cbn [k_f k_fsig k_fasync k_calls k_direct k_steps k_forward k_partial k_levels k_fail k_top_calls k_fsig_after k_fdict_after k_again].
+  cbn [k_f k_fsig k_fasync k_calls k_direct k_steps k_forward k_partial k_levels k_fail k_top_calls k_lower_saws k_fsig_after k_fdict_after k_again].
   rewrite (func_sig_wf f WF).
   assert (DIR : map (bind (sg_params (func_sig f))) calls = map (call_func f) calls).
   { apply map_ext. intro c. unfold call_func. rewrite (sig_of_func_sig f (wf_len f WF)). reflexivity. }
@@ -522,11 +567,14 @@ Proof.
     destruct (update_wrapper_opt (s_options st) (s_id st) f (s_injected st) (s_expected st)) as [g0|e0]; [|discriminate E].
     simpl in RV. destruct (rev (fst (run_steps (b_func g0) r))); discriminate RV.
   - destruct (TOP gtop below eq_refl) as [PT [b2 [G2 ET]]]. subst top.
-    apply (calls_ok_model f gtop below b2 fwd partial _ WF G2 PT); [| |reflexivity|exact NDc].
-    + intro F. specialize (PLN (PL F)). apply Forall_rev' in PLN. rewrite RV in PLN.
+    assert (PAR : fwd = false -> Forall (passes_on (fb_sig b2)) (firstn partial below) /\ partial <= length below).
+    { intro F. apply (partial_levels f steps partial WF NZ (PA F) E gtop below b2 RV PT). }
+    apply andb_true_iff. split.
+    + apply (calls_ok_model f gtop below b2 fwd partial _ WF G2 PT); [|exact PAR|reflexivity|exact NDc].
+      intro F. specialize (PLN (PL F)). apply Forall_rev' in PLN. rewrite RV in PLN.
       inversion PLN as [|? ? P1 P2]; subst. split; [|exact P2].
       destruct PT as [S1 _]. destruct P1 as [S2 _]. congruence.
-    + intro F. apply (partial_levels f steps partial WF NZ (PA F) E gtop below b2 RV PT).
+    + apply (lower_ok_model f gtop below b2 fwd partial _ G2 PT PAR); [reflexivity | reflexivity | exact NDc].
 Qed.
 
 (* ... and the comparison with the model accepts the model's own observation *)
@@ -556,11 +604,11 @@ Theorem model_agrees f steps fwd partial calls :
   agree (model_case f steps fwd partial calls) = true.
 Proof.
   intros WF NZ. unfold agree, model_case.
-  cbn [k_f k_fsig k_fasync k_calls k_direct k_steps k_forward k_partial k_levels k_fail k_top_calls k_fsig_after k_fdict_after k_again].
+  cbn [k_f k_fsig k_fasync k_calls k_direct k_steps k_forward k_partial k_levels k_fail k_top_calls k_lower_saws k_fsig_after k_fdict_after k_again].
   rewrite (sig_of_func_sig f (wf_len f WF)). cbn [res_eqb]. rewrite sig_eqb_refl, bool_eqb_refl.
   rewrite (list_eqb_refl _ rb_eqb_refl), dict_equiv_refl, (option_eqb_refl _ sig_eqb_refl). cbn [andb].
   pose proof (run_steps_sigs steps f WF NZ) as SG.
   destruct (run_steps f steps) as [gs e]. cbn [fst snd] in *.
   rewrite (forall2b_level_agree gs SG), (option_eqb_refl _ exn_eqb_refl). cbn [andb].
-  destruct e; [reflexivity|]. apply (list_eqb_refl _ call_obs_eqb_refl).
+  destruct e; [reflexivity|]. rewrite (list_eqb_refl _ call_obs_eqb_refl). apply (list_eqb_refl _ (list_eqb_refl _ call_eqb_refl)).
 Qed.
